@@ -54,7 +54,11 @@ class Ext:
 
 class Loop:
     def __init__(self, inv=(), modifies=(), variant=None, index="_i", bound=None, preserves=(),
-                 pure=False, body_unit=None, protect=()):
+                 pure=False, body_unit=None, protect=(), step=None):
+        # step: with body_unit, also explore one iteration through the region unit's CONTRACT
+        # (its requires become CALL obligations at the loop, its ensures carry INV-PRES);
+        # default: whenever the loop has invariants
+        self.step = bool(inv) if step is None else step
         # protect: with modifies=['*'] the only locations the body leaves unchanged
         self.protect = list(protect)
         # body_unit: name of the region unit that verifies the loop body (and the
@@ -139,7 +143,11 @@ class Unit:
         preserves=(),
         protects=(),
         export=None,
+        regions=None,
     ):
+        # regions: {region key -> unit name}: statements of this unit's code that are verified as
+        # region units of their own and are replaced here by their contract
+        self.regions = dict(regions or {})
         self.name = name
         self.target = target
         self.props = list(props)
